@@ -233,3 +233,45 @@ def harmonic_lattice(ctx):
         pts = [g.Point(*(P0 + x * D)) for x in xs]
         want = (xs[0] - xs[2]) * (xs[1] - xs[3]) / ((xs[0] - xs[3]) * (xs[1] - xs[2]))
         ctx.ensure("3d:crossratio-of-collinear-points", abs(crossratio(*pts) - want) < 1e-6, witness=dict(line=(p0, d0), xs=xs, want=want, got=float(np.real(crossratio(*pts)))))
+
+
+@case("C11", "crossratio.3d.lattice", [], kind="bounded", functions=["geometer.operators.crossratio"],
+      bound="3D: 12 coplanar but non-collinear point quadruples (NotCollinear expected), 6 pencils of four concurrent coplanar lines, 4 pencils of coaxial planes")
+def crossratio_3d_lattice(ctx):
+    import geometer as g
+    from geometer.operators import crossratio
+    from geometer.exceptions import NotCollinear
+
+    base = [((0, 0, 0), (1, 0, 0), (2, 0, 0), (0, 1, 0)), ((1, 1, 1), (2, 2, 2), (3, 3, 3), (1, 0, 0)), ((0, 0, 1), (0, 1, 1), (0, 3, 1), (2, 2, 1))]
+    for q in base:
+        for sh in [(0, 0, 0), (1, -2, 3), (0, 5, 0), (-1, -1, -1)]:
+            pts = [g.Point(*[x + y for x, y in zip(p, sh)]) for p in q]
+            try:
+                v = crossratio(*pts)
+                ok, got = False, float(np.real(v))
+            except NotCollinear:
+                ok, got = True, "NotCollinear"
+            ctx.ensure("3d:coplanar-non-collinear-points-raise-NotCollinear", ok, witness=dict(points=q, shift=sh, got=got))
+    xs = [0, 1, 3, -2]
+    want = (xs[0] - xs[2]) * (xs[1] - xs[3]) / ((xs[0] - xs[3]) * (xs[1] - xs[2]))
+    for v, u, w in [((1, 2, 3), (1, 0, 0), (0, 1, 1)), ((0, 0, 0), (1, 1, 0), (0, 0, 1)), ((2, 0, -1), (0, 1, 0), (1, 0, 2)), ((0, 0, 0), (1, 0, 0), (0, 1, 0)),
+                    ((5, 5, 5), (1, -1, 0), (1, 1, -2)), ((0, 3, 0), (0, 0, 1), (2, 1, 0))]:
+        V, U, W = (np.array(t, dtype=float) for t in (v, u, w))
+        ls = [g.Line(g.Point(*V), g.Point(*(V + U + x * W))) for x in xs]
+        try:
+            got = float(np.real(crossratio(*ls)))
+            ok = abs(got - want) < 1e-6
+        except Exception as e:
+            ok, got = False, "%s: %s" % (type(e).__name__, e)
+        ctx.ensure("3d:four-concurrent-coplanar-lines", ok, witness=dict(vertex=v, u=u, w=w, want=want, got=got), excuse=("KF-C11-1", None))
+    for n1, n2 in [((1, 0, 0), (0, 1, 0)), ((1, 1, 0), (0, 0, 1)), ((1, 2, 3), (1, -1, 0)), ((0, 1, 1), (2, 0, -1))]:
+        N1, N2 = np.array(n1, dtype=float), np.array(n2, dtype=float)
+        for off in (0, 2):
+            E = [g.Plane(*(s_ * N1 + t_ * N2), -off * (s_ * N1[0] + t_ * N2[0])) for s_, t_ in ((1, 0), (0, 1), (1, 1), (1, 3))]
+            wantp = (1 * 1 - 0 * 1) * (0 * 3 - 1 * 1) / ((1 * 3 - 0 * 1) * (0 * 1 - 1 * 1))
+            try:
+                got = float(np.real(crossratio(*E)))
+                ok = abs(got - wantp) < 1e-6
+            except Exception as e:
+                ok, got = False, "%s: %s" % (type(e).__name__, e)
+            ctx.ensure("3d:four-coaxial-planes", ok, witness=dict(n1=n1, n2=n2, offset=off, want=wantp, got=got))
